@@ -16,7 +16,7 @@ import posixpath
 import subprocess
 import urllib.parse
 
-from . import dav, icalref
+from . import dav, findings, icalref
 from .world import World
 
 SLOTS = {
@@ -1063,6 +1063,435 @@ class Runner:
                 self.sync_nontrivial = getattr(self, "sync_nontrivial", set())
                 self.sync_nontrivial.add(hashlib.sha1(repr((idx, len(hist), sorted(seqs))).encode()).hexdigest())
                 self.stats["sync:nontrivial"] += 1
+
+
+    # -- C15: collection properties --------------------------------------------------
+    SETTABLE = [P_DISPLAYNAME, P_COMMENT, P_CALCOLOR, P_CALORDER, P_ABDESC, P_ABCOLOR, P_CALDESC, P_REFRESH]
+
+    def obs_props(self, step):
+        fe = step.get("afe", "wsgi") if step else "wsgi"
+        self.removed_props = getattr(self, "removed_props", {})
+        last = self.last
+        if last.get("op") == "PROPPATCH" and step is not None:
+            mc = self.model.colls.get(last["coll"])
+            if mc is not None:
+                for k in step.get("remove", []):
+                    if k in last.get("acked", []) and k not in mc.props:
+                        self.removed_props[(last["coll"], k)] = True
+                for k, v in step.get("set", []):
+                    if k in mc.props:
+                        self.removed_props.pop((last["coll"], k), None)
+        for coll, mc in self.model.colls.items():
+            r = self.req(fe, "PROPFIND", coll + "/", [("Depth", "0"), dav.XML_CT], dav.propfind_body(self.SETTABLE + [P_RT]))
+            ms = dav.parse_ms(r)
+            if ms is None or not ms.responses or ms.responses[0].status == 404:
+                self.violation("props", "propfind-failed", f"PROPFIND of {coll} failed: {r.status} {r.exc or r.body[:300]!r}; properties set so far: {mc.props}")
+            resp = ms.responses[0]
+            for k, v in mc.props.items():
+                st_ = resp.prop_status(k)
+                got = resp.prop_text(k)
+                if st_ == 200 and findings.k7_multiline_config_value(mc.meta, v, got):
+                    self.known["K7"] += 1
+                    mc.props[k] = got  # adopt the observed value so that the history can continue
+                    continue
+                if st_ != 200 or got != v:
+                    self.violation("props", f"readback:{k.split('}')[1]}", f"{coll}: {k} was set to {v!r} (acknowledged) but PROPFIND returns status {st_} value {got!r}")
+                self.stats["props:readback-ok"] += 1
+                if self.stats.get("restarts"):
+                    self.stats["props:readback-after-restart"] += 1
+            for (c, k) in list(self.removed_props):
+                if c != coll or k in mc.props:
+                    continue
+                got = resp.prop_text(k)
+                if got not in (None, "") and not (k == P_DISPLAYNAME and got == posixpath.basename(coll)):
+                    self.violation("props", "removed-still-set", f"{coll}: {k} was removed (acknowledged) but PROPFIND still returns {got!r}")
+            rts = resp.resourcetypes()
+            if rts is not None and mc.kind in KIND_RT and rts != KIND_RT[mc.kind]:
+                self.violation("props", "resourcetype-changed", f"{coll}: resourcetype {rts}, expected {KIND_RT[mc.kind]}")
+
+
+    # -- C16: listings and hrefs --------------------------------------------------------
+    ID_PROPS = [P_ETAG, P_RT, P_DISPLAYNAME]
+
+    def base_url(self, target):
+        return "http://localhost" + target
+
+    def deref_props(self, fe, target):
+        """PROPFIND Depth 0 on a request target exactly as given -> MSResponse or None (404)."""
+        r = self.req(fe, "PROPFIND", None, [("Depth", "0"), dav.XML_CT], dav.propfind_body(self.ID_PROPS), raw_target=target)
+        ms = dav.parse_ms(r)
+        if ms is None or not ms.responses:
+            return None, r
+        if ms.responses[0].status == 404:
+            return None, r
+        return ms.responses[0], r
+
+    def check_emitted(self, fe, req_target, href, what, expect):
+        """expect: dict(kind='member', etag=..) | dict(kind='collection', displayname=.., rts=..) | dict(kind='absent') | dict(kind='principal')"""
+        self.stats["href:checked"] += 1
+        self.stats["href:" + what] += 1
+        if href is None or href == "":
+            self.violation("hrefs", f"{what}:empty-href", f"{what}: empty href emitted for {expect}")
+        target = dav.resolve(self.base_url(req_target), href)
+        desc = f"{what}: href {href!r} (request {req_target!r} via {fe}, resolved to {target!r}) emitted for {expect}"
+        if expect["kind"] == "member":
+            r = self.req(fe, "GET", None, None, None, raw_target=target)
+            if r.status != 200:
+                self.violation("hrefs", f"{what}:member-href-unresolvable", f"{desc}: GET answered {r.status} {r.exc or ''}")
+            if r.header("ETag") != expect["etag"]:
+                self.violation("hrefs", f"{what}:member-href-wrong-resource", f"{desc}: GET served ETag {r.header('ETag')}")
+            if expect.get("body") is not None and not (r.body == expect["body"] or icalref.same_calendar(expect["body"], r.body)):
+                self.violation("hrefs", f"{what}:member-href-wrong-body", f"{desc}: GET served {r.body[:200]!r}")
+            nm = expect.get("name")
+            if nm is not None:
+                cls = "nonascii" if any(ord(c) > 127 for c in nm) else ("encoded" if dav.quote_name(nm) != nm else "plain")
+                self.href_classes = getattr(self, "href_classes", set())
+                self.href_classes.add((cls, self.world.prefix, fe, what))
+        elif expect["kind"] == "absent":
+            r = self.req(fe, "GET", None, None, None, raw_target=target)
+            if r.status != 404:
+                self.violation("hrefs", f"{what}:absent-href-resolves", f"{desc}: GET answered {r.status}, expected 404")
+        else:
+            resp, r = self.deref_props(fe, target)
+            if resp is None:
+                self.violation("hrefs", f"{what}:collection-href-unresolvable", f"{desc}: PROPFIND answered {r.status} {r.exc or r.body[:200]!r}")
+            rts = resp.resourcetypes() or []
+            if expect["kind"] == "principal":
+                if "{DAV:}principal" not in rts:
+                    self.violation("hrefs", f"{what}:not-a-principal", f"{desc}: resourcetype {rts}")
+            else:
+                if RT_COLL in rts and not (resp.href or "").endswith("/"):
+                    self.violation("hrefs", f"{what}:collection-href-no-slash", f"{desc}: dereferenced collection is described with href {resp.href!r}")
+                if expect.get("rts") is not None and rts != expect["rts"]:
+                    self.violation("hrefs", f"{what}:collection-href-wrong-type", f"{desc}: resourcetype {rts} expected {expect['rts']}")
+                if expect.get("displayname") is not None and resp.prop_text(P_DISPLAYNAME) != expect["displayname"]:
+                    self.violation("hrefs", f"{what}:collection-href-wrong-resource", f"{desc}: displayname {resp.prop_text(P_DISPLAYNAME)!r} expected {expect['displayname']!r}")
+                if RT_COLL in rts and not href.endswith("/"):
+                    self.violation("hrefs", f"{what}:collection-href-no-slash", f"{desc}: emitted href of a collection does not end in '/'")
+
+    def coll_expect(self, coll):
+        mc = self.model.colls.get(coll)
+        if mc is None:
+            if coll == "/user":
+                return {"kind": "principal"}
+            return {"kind": "absent"}
+        return {"kind": "collection", "displayname": mc.props.get(P_DISPLAYNAME, posixpath.basename(coll)), "rts": KIND_RT.get(mc.kind)}
+
+    def check_listing(self, fe, req_target, ms, coll, depth, what):
+        """Multistatus of a PROPFIND on collection `coll`."""
+        mc = self.model.colls[coll]
+        resps = ms.responses
+        exp_n = 1 + (len(mc.members) + len(self.model.children(coll)) if depth == 1 else 0)
+        if len(resps) != exp_n:
+            self.violation("hrefs", f"{what}:response-count", f"PROPFIND Depth {depth} on {req_target!r}: {len(resps)} responses ({[x.href for x in resps]}), expected {exp_n}")
+        hrefs = [x.href for x in resps]
+        if len(set(hrefs)) != len(hrefs):
+            self.violation("hrefs", f"{what}:duplicate-href", f"PROPFIND Depth {depth} on {req_target!r}: duplicate hrefs {hrefs}")
+        self.check_emitted(fe, req_target, resps[0].href, what + ":self", self.coll_expect(coll))
+        if depth == 1:
+            by_etag = {self.cur_etag[(coll, n)]: n for n in mc.members}
+            by_dn = {self.coll_expect(p)["displayname"]: p for p in self.model.children(coll)}
+            seen = set()
+            for resp in resps[1:]:
+                rts = resp.resourcetypes() or []
+                if RT_COLL in rts:
+                    dn = resp.prop_text(P_DISPLAYNAME)
+                    if dn not in by_dn:
+                        self.violation("hrefs", f"{what}:unknown-subcollection", f"PROPFIND Depth 1 on {req_target!r} lists a collection with displayname {dn!r}; expected one of {sorted(by_dn)}")
+                    ident = ("c", dn)
+                    self.check_emitted(fe, req_target, resp.href, what + ":subcollection", self.coll_expect(by_dn[dn]))
+                else:
+                    e = resp.prop_text(P_ETAG)
+                    if e not in by_etag:
+                        self.violation("hrefs", f"{what}:unknown-member", f"PROPFIND Depth 1 on {req_target!r} lists a member with ETag {e}; expected one of {by_etag}")
+                    ident = ("m", e)
+                    n = by_etag[e]
+                    self.check_emitted(fe, req_target, resp.href, what + ":member", {"kind": "member", "etag": e, "body": mc.members[n].raw, "name": n})
+                if ident in seen:
+                    self.violation("hrefs", f"{what}:listed-twice", f"PROPFIND Depth 1 on {req_target!r}: {ident} listed twice")
+                seen.add(ident)
+
+    def op_HREFS(self, st):
+        """Probe: one request of the given kind, then dereference everything it emitted."""
+        coll = SLOTS[st["coll"]]
+        fe = st["fe"]
+        what = st["what"]
+        mc = self.model.colls.get(coll)
+        slash = "/" if st.get("slash", True) else ""
+        self.last = {"op": "HREFS", "ack": False, "coll": coll}
+        # every member must have a distinct ETag for identification
+        if mc is not None:
+            ets = [self.cur_etag[(coll, n)] for n in mc.members]
+            if len(set(ets)) != len(ets):
+                self.stats["href:skipped-ambiguous"] += 1
+                return set()
+        if what in ("propfind0", "propfind1"):
+            depth = 0 if what == "propfind0" else 1
+            target = self.world.url(coll + slash)
+            r = self.req(fe, "PROPFIND", None, [("Depth", str(depth)), dav.XML_CT], dav.propfind_body(self.ID_PROPS), raw_target=target)
+            ms = dav.parse_ms(r)
+            if ms is None:
+                self.violation("hrefs", "propfind-failed", f"PROPFIND {target!r}: {r.status} {r.exc or r.body[:200]!r}")
+            if mc is None:
+                if len(ms.responses) != 1 or ms.responses[0].status != 404:
+                    self.violation("hrefs", "propfind-missing-not-404", f"PROPFIND on missing {target!r}: {[(x.href, x.status) for x in ms.responses]}")
+                self.check_emitted(fe, target, ms.responses[0].href, "propfind-404", {"kind": "absent"})
+            else:
+                self.check_listing(fe, target, ms, coll, depth, what)
+        elif what == "propfind-member":
+            if mc is None or not mc.members:
+                return set()
+            n = sorted(mc.members)[st.get("k", 0) % len(mc.members)]
+            target = self.world.url(self.member_path(coll, n))
+            r = self.req(fe, "PROPFIND", None, [("Depth", str(st.get("depth", 0))), dav.XML_CT], dav.propfind_body(self.ID_PROPS), raw_target=target)
+            ms = dav.parse_ms(r)
+            if ms is None or len(ms.responses) != 1:
+                self.violation("hrefs", "propfind-member:response-count", f"PROPFIND on member {target!r}: {r.status} {[x.href for x in ms.responses] if ms else r.body[:200]}")
+            self.check_emitted(fe, target, ms.responses[0].href, "propfind-member", {"kind": "member", "etag": self.cur_etag[(coll, n)], "body": mc.members[n].raw, "name": n})
+        elif what == "proppatch":
+            target = self.world.url(coll + slash)
+            dn = st.get("value", "Name") + " " + st["coll"]  # unique per collection: displaynames identify collections
+            r = self.req(fe, "PROPPATCH", None, [dav.XML_CT], dav.proppatch_body([(P_DISPLAYNAME, dn)]), raw_target=target)
+            ms = dav.parse_ms(r)
+            if ms is None or not ms.responses:
+                self.violation("hrefs", "proppatch-failed", f"PROPPATCH {target!r}: {r.status} {r.exc or r.body[:200]!r}")
+            if mc is not None and ms.responses[0].prop_status(P_DISPLAYNAME) == 200:
+                mc.props[P_DISPLAYNAME] = dn
+                mc.epoch += 1
+                self.coll_writes[coll] += 1
+                self.last["ack"] = True
+            self.check_emitted(fe, target, ms.responses[0].href, "proppatch", self.coll_expect(coll))
+            return {coll}
+        elif what in ("multiget", "query", "sync"):
+            if mc is None or mc.kind not in ("calendar", "addressbook"):
+                return set()
+            target = self.world.url(coll + slash)
+            ext = ".ics" if mc.kind == "calendar" else ".vcf"
+            sel = [n for n in sorted(mc.members) if n.endswith(ext)]
+            if what == "multiget":
+                hrefs = [self.world.url(self.member_path(coll, n)) for n in sel]
+                body = dav.multiget_body(mc.kind, hrefs, data=False)
+            elif what == "query":
+                body = dav.calquery_body(dav.MATCH_ALL_CAL, data=False) if mc.kind == "calendar" else dav.abquery_body(None, data=False)
+            else:
+                body = dav.sync_body("")
+                sel = sorted(mc.members)
+            r = self.req(fe, "REPORT", None, [("Depth", "1"), dav.XML_CT], body, raw_target=target)
+            ms = dav.parse_ms(r)
+            if ms is None:
+                self.violation("hrefs", f"{what}-failed", f"REPORT {what} on {target!r}: {r.status} {r.exc or r.body[:200]!r}")
+            by_etag = {self.cur_etag[(coll, n)]: n for n in sel}
+            got = set()
+            for resp in ms.responses:
+                e = resp.prop_text(P_ETAG)
+                if e is None and what == "query" and mc.kind == "addressbook":
+                    continue  # C12 covers what an addressbook-query returns
+                if e not in by_etag and what == "query" and mc.kind == "addressbook":
+                    continue  # which resources an addressbook-query returns is C12's subject
+                if e not in by_etag:
+                    self.violation("hrefs", f"{what}:unknown-member", f"REPORT {what} on {target!r}: response {resp.href!r} with ETag {e}; expected {by_etag}")
+                got.add(e)
+                n = by_etag[e]
+                self.check_emitted(fe, target, resp.href, what, {"kind": "member", "etag": e, "body": mc.members[n].raw, "name": n})
+            if got != set(by_etag):
+                self.violation("hrefs", f"{what}:incomplete", f"REPORT {what} on {target!r}: answered {len(got)} of {len(by_etag)} members")
+        elif what == "post":
+            if mc is None:
+                return set()
+            target = self.world.url(coll + slash)
+            body = body_of(st)
+            r = self.req(fe, "POST", None, [("Content-Type", st["ctype"])], body, raw_target=target)
+            if dav.acknowledged(r):
+                loc = r.header("Location")
+                if not loc:
+                    self.violation("hrefs", "post:no-location", f"POST {target!r} answered {r.status} without Location")
+                t = dav.resolve(self.base_url(target), loc)
+                g = self.req(fe, "GET", None, None, None, raw_target=t)
+                if g.status != 200 or not (g.body == body or icalref.same_calendar(body, g.body)):
+                    self.violation("hrefs", "post:location-unresolvable", f"POST {target!r} via {fe}: Location {loc!r} resolves to {t!r} which answers {g.status} {g.body[:100]!r}")
+                name = urllib.parse.unquote(t.rsplit("/", 1)[-1])
+                mc.members[name] = MMember(body, st["ctype"], 1)
+                self.coll_writes[coll] += 1
+                self.last["ack"] = True
+                self.stats["href:post-location"] += 1
+            return {coll}
+        elif what == "props":
+            # href-valued properties
+            target = self.world.url(coll + slash) if mc is not None else self.world.url("/user/")
+            props = ["{DAV:}current-user-principal", "{DAV:}principal-URL", "{urn:ietf:params:xml:ns:caldav}calendar-home-set", "{urn:ietf:params:xml:ns:carddav}addressbook-home-set", "{DAV:}add-member"]
+            for tgt, subject in ((target, coll if mc is not None else "/user"), (self.world.url("/user/"), "/user"), (self.world.url("/user"), "/user")):
+                r = self.req(fe, "PROPFIND", None, [("Depth", "0"), dav.XML_CT], dav.propfind_body(props), raw_target=tgt)
+                ms = dav.parse_ms(r)
+                if ms is None or not ms.responses:
+                    self.violation("hrefs", "props-propfind-failed", f"PROPFIND {tgt!r}: {r.status} {r.exc or r.body[:200]!r}")
+                resp = ms.responses[0]
+                for h in resp.prop_hrefs(props[0]):
+                    self.check_emitted(fe, tgt, h, "current-user-principal", {"kind": "principal"})
+                for h in resp.prop_hrefs(props[1]):
+                    self.check_emitted(fe, tgt, h, "principal-URL", {"kind": "principal"})
+                for h in resp.prop_hrefs(props[2]):
+                    self.check_emitted(fe, tgt, h, "calendar-home-set", self.coll_expect("/user/calendars"))
+                for h in resp.prop_hrefs(props[3]):
+                    self.check_emitted(fe, tgt, h, "addressbook-home-set", self.coll_expect("/user/contacts"))
+                for h in resp.prop_hrefs(props[4]):
+                    self.check_emitted(fe, tgt, h, "add-member", self.coll_expect(subject) if subject != "/user" else {"kind": "principal"})
+        return set()
+
+
+    # -- C17: multiget ------------------------------------------------------------------
+    def mg_resolve_spec(self, spec, coll, mc, pools):
+        """-> href string as sent."""
+        k = spec["kind"]
+        i = spec.get("k", 0)
+        live = sorted(mc.members) if mc else []
+        pre = self.world.prefix.rstrip("/")
+
+        def member_href(c, n):
+            return self.world.url(self.member_path(c, n))
+
+        if k == "live" and live:
+            return member_href(coll, live[i % len(live)])
+        if k == "dead":
+            cands = [n for n in pools["names"] if n not in live]
+            return member_href(coll, cands[i % len(cands)] if cands else "never-%d.ics" % i)
+        if k == "never" or (k in ("live", "overencoded", "absolute", "lookalike", "noprefix") and not live):
+            return member_href(coll, "never-%d.ics" % i)
+        if k == "overencoded":
+            n = live[i % len(live)]
+            return self.world.url(coll + "/" + "".join("%%%02X" % b for b in n.encode("utf-8")))
+        if k == "absolute":
+            return "http://localhost" + member_href(coll, live[i % len(live)])
+        if k == "collection":
+            return self.world.url(coll + "/")
+        if k == "other-coll":
+            others = [(c, n) for c, m in sorted(self.model.colls.items()) if c != coll for n in sorted(m.members)]
+            if not others:
+                return member_href("/user/calendars/c2", "x.ics")
+            c, n = others[i % len(others)]
+            return member_href(c, n)
+        if k == "lookalike":
+            # prefix look-alike: '/dav/' -> '/davuser/...' (outside the namespace unless the prefix is '/')
+            return pre + self.member_path(coll, live[i % len(live)]).lstrip("/") if pre else "/x" + member_href(coll, live[i % len(live)])
+        if k == "noprefix":
+            return self.member_path(coll, live[i % len(live)]) if pre else "/zz" + member_href(coll, live[i % len(live)])
+        if k == "empty":
+            return ""
+        if k == "malformed":
+            return ["::::", "%zz%", "http://[bad", "?q=1", "#frag", "relative/x.ics"][i % 6]
+        return member_href(coll, "never-%d.ics" % i)
+
+    def mg_expect(self, href):
+        """Classify an href as sent: ('member', coll, name) | ('none',) | ('collection', coll) | ('unmatched',)"""
+        try:
+            sp = urllib.parse.urlsplit(href)
+        except ValueError:
+            return ("unmatched",), None
+        p = urllib.parse.unquote(sp.path)
+        if not p:
+            return ("unmatched",), None
+        pre = self.world.prefix.rstrip("/")
+        if pre and not (p == pre or p.startswith(pre + "/")):
+            return ("none",), p
+        app = p[len(pre):] or "/"
+        if not app.startswith("/"):
+            return ("none",), p
+        norm = posixpath.normpath(app)
+        if norm.startswith("//"):
+            norm = norm[1:]
+        if norm in self.model.colls or norm in ("/user", "/"):
+            return ("collection", norm), p
+        c, n = posixpath.split(norm)
+        mc = self.model.colls.get(c)
+        if mc is not None and n in mc.members:
+            return ("member", c, n), p
+        return ("none",), p
+
+    def mg_request(self, fe, coll, kind, hrefs):
+        body = dav.multiget_body(kind, hrefs)
+        r = self.req(fe, "REPORT", coll + "/", [("Depth", "1"), dav.XML_CT], body)
+        ms = dav.parse_ms(r)
+        if ms is None:
+            self.violation("multiget", "report-failed", f"{kind}-multiget on {coll} with hrefs {hrefs}: {r.status} {r.exc or r.body[:300]!r}")
+        dprop = "{urn:ietf:params:xml:ns:caldav}calendar-data" if kind == "calendar" else "{urn:ietf:params:xml:ns:carddav}address-data"
+        out = {}
+        for resp in ms.responses:
+            p = dav.href_path(resp.href)
+            ans = {"status": resp.status, "etag": resp.prop_text(P_ETAG), "etag_status": resp.prop_status(P_ETAG), "data": resp.prop_text(dprop), "data_status": resp.prop_status(dprop), "href": resp.href}
+            out.setdefault(p, []).append(ans)
+        return out
+
+    def op_MULTIGET(self, st):
+        coll = SLOTS[st["coll"]]
+        mc = self.model.colls.get(coll)
+        self.last = {"op": "MULTIGET", "ack": False, "coll": coll}
+        if mc is None or mc.kind not in ("calendar", "addressbook"):
+            return set()
+        kind = mc.kind
+        fe = st["fe"]
+        hrefs = [self.mg_resolve_spec(sp, coll, mc, st.get("pools", {"names": []})) for sp in st["hrefs"]]
+        answers = self.mg_request(fe, coll, kind, hrefs)
+        ext = ".ics" if kind == "calendar" else ".vcf"
+        classes = set()
+        wanted = {}
+        for h in hrefs:
+            exp, p = self.mg_expect(h)
+            if exp[0] == "unmatched":
+                classes.add("malformed")
+                continue
+            wanted[p] = exp
+        desc = f"{kind}-multiget on {coll} via {fe} (prefix {self.world.prefix}) with hrefs {hrefs}"
+        for p, exp in wanted.items():
+            got = answers.get(p, [])
+            if len(got) != 1:
+                self.violation("multiget", "not-answered-exactly-once", f"{desc}: path {p!r} got {len(got)} responses; all answers: { {k: [(a['status'], a['data_status']) for a in v] for k, v in answers.items()} }")
+            a = got[0]
+            if exp[0] == "member" and exp[2].endswith(ext):
+                classes.add("live")
+                c, n = exp[1], exp[2]
+                g = self.req(fe, "GET", self.member_path(c, n), None, None)
+                if a["data_status"] != 200 or a["data"] is None:
+                    self.violation("multiget", "live-member-without-data", f"{desc}: {p!r} is a live member but was answered status={a['status']} data_status={a['data_status']}")
+                if a["etag"] != g.header("ETag"):
+                    self.violation("multiget", "etag-differs-from-get", f"{desc}: {p!r} ETag {a['etag']} but GET says {g.header('ETag')}")
+                if a["data"].encode("utf-8").replace(b"\r\n", b"\n") != g.body.replace(b"\r\n", b"\n"):
+                    self.violation("multiget", "data-differs-from-get", f"{desc}: {p!r} data {a['data'][:200]!r} but GET serves {g.body[:200]!r}")
+            else:
+                classes.add("dead" if exp[0] == "none" else "wrong-kind")
+                if exp[0] == "none" and p.startswith(self.world.prefix.rstrip("/") + "/") is False:
+                    classes.add("out-of-namespace")
+                if a["data"] is not None and a["data_status"] == 200:
+                    self.violation("multiget", "data-for-nonexistent", f"{desc}: {p!r} ({exp}) was answered with data {a['data'][:120]!r}")
+                if not (a["status"] == 404 or a["data_status"] == 404):
+                    self.violation("multiget", "no-not-found-status", f"{desc}: {p!r} ({exp}) answered status={a['status']} data_status={a['data_status']}")
+        extra = set(answers) - set(wanted)
+        for p in extra:
+            for a in answers[p]:
+                if a["data"] is not None and a["data_status"] == 200:
+                    self.violation("multiget", "unrequested-data", f"{desc}: response for {p!r} (not requested) carries data")
+        # independence: each href alone, and the list reversed
+        def norm(ans):
+            return {p: [(a["status"], a["etag"], a["data"], a["data_status"]) for a in v] for p, v in ans.items()}
+
+        full = norm(answers)
+        if len(hrefs) > 1:
+            rev = norm(self.mg_request(fe, coll, kind, list(reversed(hrefs))))
+            if rev != full:
+                diff = {p: (full.get(p), rev.get(p)) for p in set(full) | set(rev) if full.get(p) != rev.get(p)}
+                self.violation("multiget", "order-dependent", f"{desc}: answers differ when the hrefs are reversed: { {p: [[x[0], x[1], x[3]] for x in (a or [])] + ['vs'] + [[x[0], x[1], x[3]] for x in (b or [])] for p, (a, b) in diff.items()} }")
+            for h in dict.fromkeys(hrefs):
+                exp, p = self.mg_expect(h)
+                if exp[0] == "unmatched":
+                    continue
+                single = norm(self.mg_request(fe, coll, kind, [h]))
+                if single.get(p) != full.get(p):
+                    self.violation("multiget", "depends-on-other-hrefs", f"{desc}: {p!r} answered {[(x[0], x[1], x[3]) for x in full.get(p, [])]} in the list but {[(x[0], x[1], x[3]) for x in single.get(p, [])]} alone")
+        self.stats["multiget:requests"] += 1
+        for c in classes:
+            self.stats["multiget:class:" + c] += 1
+        if {"live", "dead"} <= classes and ("out-of-namespace" in classes or self.world.prefix == "/" and "wrong-kind" in classes):
+            self.mg_nontrivial = getattr(self, "mg_nontrivial", set())
+            self.mg_nontrivial.add(hashlib.sha1(repr((sorted(classes), [sp["kind"] for sp in st["hrefs"]], self.world.prefix, fe)).encode()).hexdigest())
+        return set()
 
     # -- the content audit (C01 oracle) ---------------------------------------
     LIST_PROPS = [P_ETAG, P_RT]
